@@ -446,6 +446,9 @@ func runLogProp(cfg logRunCfg) func(seed int64, tier string, outDir string) *res
 			if tier == "thorough" {
 				nf, na = 600, 300
 			}
+			if cfg.prop == "C06" {
+				runMixedCodecScenarios(xr, na, st, xf)
+			}
 			if cfg.prop == "C06" || cfg.prop == "C02" || cfg.prop == "C05" {
 				runForgeScenarios(xr, nf, st, xf)
 			}
@@ -461,6 +464,9 @@ func runLogProp(cfg logRunCfg) func(seed int64, tier string, outDir string) *res
 				runPartialJoinScenarios(xr, na, st, xf)
 				if cfg.prop == "C02" {
 					runPinFaultScenarios(xr, na, st, xf)
+				}
+				if cfg.prop == "C05" {
+					runMixedCodecScenarios(xr, na, st, xf)
 				}
 			}
 			res.Stats["forged_logs_joined"] = st.forged
